@@ -47,6 +47,11 @@ func runC18(p *core.Program, r *core.Report) {
 	chainRules(p, r, "R7", "C02", []string{"C02.R4", "C02.R5"}, "an error returned by GenerateType reaches the result of Execute")
 	// R8: "the generated code compiles": the file is replaced as a whole, no tail of the previous output survives
 	chainRules(p, r, "R8", "C01", []string{"C01.R1"}, "the generated file is replaced as a whole")
+	// R9: "with identical types": every arm of the type printer goes through the printer for its element types
+	chainRules(p, r, "R9", "C11", []string{"C11.R1"}, "field types are rendered structurally, element types through the printer")
+	// R10: "exactly the origin's fields that are not omitted": the omit/replace tags a type is generated with are its own
+	// effective tags, merged into a fresh map (C06.R3)
+	chainRules(p, r, "R10", "C06", []string{"C06.R3"}, "effective tags are merged into a fresh map per declaration")
 	// R6: "foreign types correctly imported" - every package the type printer registered is
 	// imported under the very name the rendered field types use (C03.R2's printer rule)
 	r.Floor("R6", 2)
